@@ -92,6 +92,30 @@ CLAIMED = {
          'wrap.Force and the pars combinators are trusted as documented; a hand-written wrapper is reported undecided, not accepted.'),
 }
 
+# Round-4 additions: (technique addendum, claim addendum) per property. Every library property
+# also runs STATELESS.
+STATELESS_TECH = "; flow-insensitive alias/effect analysis on the syntax trees with parameter-write summaries to a fixpoint (STATELESS: no function of gts or gts/seqio writes package-level memory after initialisation)"
+STATELESS_TEXT = " Also decides that the library keeps no state between calls (STATELESS), which every statement 'for all histories of calls' depends on."
+LIB = {"C01", "C02", "C03", "C04", "C05", "C06", "C07", "C08", "C09", "C10", "C11", "C12", "C16", "C17", "C18", "C19"}
+ADD = {
+ "C01": ("; who-may-call rule on (*pars.State).Dump (REQ-BUF)", " Look-ahead in the parsers never goes through State.Dump, whose answer depends on where the reader's 4096-byte reads end (REQ-BUF)."),
+ "C02": ("; NO-REORDER data-flow rule on the filled part slices", " The filled parts reach Join/Order unpermuted (NO-REORDER)."),
+ "C03": ("; who-may-call and kind-preservation rules on asComplete, NORMALISE-FIRST (a canonicalised parameter is not read by an earlier statement), SLICE-REGION must-pass rule on go/cfg", " Only slicing strips partial markers and it keeps the kind of the location (COMPLETE-ONLY-SLICE, KIND-PRESERVE); nothing reads start/end before they are counted from the end (NORMALISE-FIRST); GenBankFields.Slice records the window on every path (SLICE-REGION)."),
+ "C04": ("; NO-REORDER data-flow rule; NORMALISE-FIRST", " The normalised parts reach Join/Order in the order they were filled (NO-REORDER); the rotation amount is not read before it is reduced (NORMALISE-FIRST)."),
+ "C05": ("; NO-REORDER", " The mirrored parts reach the constructor unpermuted (NO-REORDER)."),
+ "C06": ("; PRINT-TOTAL shape rule on Ranged.String", " Ranged.String writes start, `..` and end on every path, the markers under their own flags (PRINT-TOTAL)."),
+ "C07": ("; OVERFLOW side condition of the non-negativity analysis (boundedness of input numbers in size arithmetic); ORIGIN-LINE-END / ORIGIN-END path rules; REQ-BUF", " Size arithmetic on numbers read from the input is dominated by an upper-bound guard (OVERFLOW; a LOCUS length near 2^63 panicked: repaired); a record with more residues than its LOCUS line declares is an error on the fast and the slow path (ORIGIN-LINE-END, ORIGIN-END; it was read short: repaired); no look-ahead through State.Dump (REQ-BUF). The clause 'inconsistent LOCUS/ORIGIN lengths are rejected' is now decided structurally in both directions."),
+ "C08": ("; DEDUP-EXACT", " gts extract drops a region only when it equals an earlier one in full (DEDUP-EXACT)."),
+ "C10": ("; who-may-call rule on asComplete; NORMALISE-FIRST", " No edit other than slicing clears partial markers (COMPLETE-ONLY-SLICE)."),
+ "C11": ("; SHALLOW-CACHE on the reviewed mutator (*Origin).Bytes", " The reviewed exception is narrowed: (*Origin).Bytes may rebind its receiver's fields but not store into the block they reference (SHALLOW-CACHE)."),
+ "C12": ("; UNIQUE-CUTS and EMIT-ALL on gts split", " gts split cuts at distinct positions and writes every piece (UNIQUE-CUTS, EMIT-ALL), without which split | join | repair cannot restore the table."),
+ "C14": ("; KEY-9 provenance of everything fed to the digest of a secondary input; KEY-10 path-sensitive typestate of the input descriptor in TryCache", " The digest of a secondary input is taken over the input as given, not over values parsed from it (KEY-9); the inherited standard input is never hashed in place (KEY-10)."),
+ "C15": ("; STALE-VALUE (path-sensitive def-use staleness on go/cfg), EMIT-ALL, UNIQUE-CUTS", " No number/boolean computed from a variable is read after that variable was re-assigned (STALE-VALUE); a loop that writes one record per site writes one for every site, extract's documented filter being evaluated on the list it emits (EMIT-ALL); split cuts at distinct positions (UNIQUE-CUTS)."),
+ "C16": ("; exhaustive evaluation of the residue predicate over all 256 bytes (RESIDUE-CLASS); SHALLOW-CACHE; ORIGIN-LINE-END", " Both readers accept every printable residue byte and none of the layout bytes (RESIDUE-CLASS, all 256 values); decoding never writes into the shared block (SHALLOW-CACHE); the slow path tests the rest of each line as the fast path does (ORIGIN-LINE-END; repaired)."),
+ "C17": ("; SLICE-REGION must-pass rule; SHALLOW-CACHE", " A slice records its window on every path, which the FASTA description is built from (SLICE-REGION)."),
+ "C19": ("; QUANT-ALL quantifier-shape rule on LocationWithin/LocationOverlap; VALUES-ONLY provenance rule on the matched strings; NOT-OF-OR on gts select", " Within is the conjunction and Overlap the disjunction of the same test over every part (QUANT-ALL); a qualifier clause is matched against values only (VALUES-ONLY; the unnamed clause also matched qualifier names: repaired); gts select -v complements the disjunction of all selectors (NOT-OF-OR)."),
+}
+
 NOT_APPLICABLE = {
 }
 
@@ -103,6 +127,10 @@ def main():
     for pid in ALL:
         if pid in CLAIMED:
             eng, tech, ref, text, note = CLAIMED[pid]
+            if pid in ADD:
+                tech, text = tech + ADD[pid][0], text + ADD[pid][1]
+            if pid in LIB:
+                tech, text = tech + STATELESS_TECH, text + STATELESS_TEXT
             checks.append({
                 "property_id": pid,
                 "quick_cmd": "./run.sh %s quick" % pid,
